@@ -82,7 +82,13 @@ def _ses(prop, tier, seed, replay=None):
     return run_session.run(prop, tier, seed, replay)
 
 
+def _proc(prop, tier, seed, replay=None):
+    from . import run_process
+    return run_process.run(prop, tier, seed, replay)
+
+
 CHECKS = {
+    'C18': _proc,
     'C03': _ses,
     'C01': _rd,
     'C02': _wr,
